@@ -251,7 +251,7 @@ def cfg_for_tla(prog: dict) -> dict:
             else:
                 wait = {"k": "incr", "a": int(w[1] * 1000), "b": int(w[2] * 1000), "c": int(w[3] * 1000), "ds": []}
             has_stop = r.get("max") is not None or r.get("stop_delay") is not None
-            retry = {"kind": "policy",
+            retry = {"kind": "raising" if r.get("raising") else "policy",
                      "max": int(r["max"]) if r.get("max") is not None else (-1 if has_stop else 3),
                      "stop_delay": int(r["stop_delay"] * 1000) if r.get("stop_delay") is not None else -1,
                      "retry_on": [EXC[x].__name__ for x in r["retry_on"]] if r.get("retry_on") else ["*"],
